@@ -13,7 +13,7 @@ def f64hex(x):
 
 class C02(Spec):
     pid = "C02"
-    props_modules = ["DSProofs.Props.C02"]
+    props_modules = ["DSProofs.Props.C02", "DSProofs.Props.C02_Jaccard"]
     harness = "theta_h"
     model_exe = "dsmodel_theta"
     family = "theta"
